@@ -478,4 +478,4 @@ def _lz(mod, fn, rid):
     return run
 
 # both exporters draw the axis iff showTicks (C07.EXPORT-CALLS); TeX colour names must be unique per datum (C20.NUMERATION)
-RULES = [main_axis, ticks, labels, dots, colours, link, stepformat, _hex, _lz("c07", "export_calls", "C07.EXPORT-CALLS"), _lz("c20", "numeration", "C20.NUMERATION"), _lz("c11", "timeline_opts", "GEN.OPTS-MERGE")]
+RULES = [main_axis, ticks, labels, dots, colours, link, stepformat, _hex, _lz("c07", "export_calls", "C07.EXPORT-CALLS"), _lz("c20", "numeration", "C20.NUMERATION"), _lz("c11", "timeline_opts", "GEN.OPTS-MERGE"), _lz("c19", "table", "C19.TABLE")]
